@@ -54,6 +54,7 @@ func NewProcessor(queue chan Operator, buffer int, threads int) (p *Processor) {
 					p.out <- Result{nil, fmt.Errorf("concurrent: processor panic: %v", err)}
 				}
 				p.work <- struct{}{}
+				verifStep("exit-token-returned")
 				if len(p.work) == p.threads {
 					close(p.out)
 				}
